@@ -13,9 +13,12 @@ THEOREMS = ["QExPy.C06_wls_expansion", "QExPy.C06_wls_optimal", "QExPy.C06_wls_u
             "QExPy.C06_noise_free", "QExPy.C06_eff_var",
             "QExPy.C03_diff_correct"]
 RULE = ("seeded data sets (distinct x, more points than parameters; sigma_y none/common/per-point "
-        "spread x20; sigma_x none/common/per-point for exponential, Gaussian and three user models; "
-        "polynomial degrees 1-5; x-ranges whose bounds may coincide with data points; data passed as "
-        "lists, arrays, MeasurementArrays, XYDataSet, XYDataSet.fit, keywords, enum model) fitted by "
+        "spread x20; sigma_x none/common/per-point/per-point with some exact zeros/exactly one "
+        "non-zero/common with one element set to 0 afterwards, for exponential, Gaussian and three "
+        "user models; polynomial degrees 1-5; x-ranges whose bounds may coincide with data points; "
+        "30 % of the problems rescaled to other units, x and y independently by 1e-12..1e12; data "
+        "passed as lists, arrays, MeasurementArrays, XYDataSet (keywords or arrays carrying the "
+        "uncertainties), XYDataSet.fit, keywords, enum model, y as DerivedValues) fitted by "
         "the real library; the returned parameters/covariance are certified by the Lean driver "
         "against the proved optimality conditions; non-trivial = per-point weights unequal or "
         "sigma_x > 0; distinct by hash of the data set")
